@@ -334,13 +334,14 @@ func runSweep(ta *TestApp, rep *Report) []string {
 		m := &sigtypes.MsgCreateAccount{Creator: e.addrs[v[0]], AccAddressString: e.addrs[v[1]], PubKeyString: pk}
 		add(15, v, m, func(c sdk.Context) error { _, err := sms.CreateAccount(w(c), m); return err })
 	})
-	product([]int{7, 2, 2}, func(v []int) { // 16 PublishReferencePayloadLink: creator, key (empty / set), value
-		m := &sigtypes.MsgPublishReferencePayloadLink{Creator: e.addrs[v[0]], Key: []string{"", "k1"}[v[1]], Value: []string{"", "v"}[v[2]]}
+	sigKeys := []string{"", "k1", " ", "\t", " \t\r\n ", " k1 ", "\x00", strings.Repeat("k", 5000)}
+	product([]int{7, len(sigKeys), 2}, func(v []int) { // 16 PublishReferencePayloadLink: creator, key (empty / set / blank / padded / NUL / oversized), value
+		m := &sigtypes.MsgPublishReferencePayloadLink{Creator: e.addrs[v[0]], Key: sigKeys[v[1]], Value: []string{"", "v"}[v[2]]}
 		add(16, v, m, func(c sdk.Context) error { _, err := sms.PublishReferencePayloadLink(w(c), m); return err })
 	})
-	product([]int{7, 2, 4}, func(v []int) { // 17 StoreSignature: creator, storage key, JSON (0 empty, 1 malformed, 2 missing fields, 3 complete)
+	product([]int{7, len(sigKeys), 4}, func(v []int) { // 17 StoreSignature: creator, storage key, JSON (0 empty, 1 malformed, 2 missing fields, 3 complete)
 		js := []string{"", "{", `{"signature": 5}`, `{"signature":"c2ln","algorithm":"ecdsaWithSha256","certificate":"x"}`}[v[2]]
-		m := &sigtypes.MsgStoreSignature{Creator: e.addrs[v[0]], StorageKey: []string{"", "sk1"}[v[1]], SignatureJSON: js}
+		m := &sigtypes.MsgStoreSignature{Creator: e.addrs[v[0]], StorageKey: sigKeys[v[1]], SignatureJSON: js}
 		add(17, v, m, func(c sdk.Context) error { _, err := sms.StoreSignature(w(c), m); return err })
 	})
 	// ---- queries ----------------------------------------------------------------------------
